@@ -764,6 +764,12 @@ func (c *specCtx) call(x *SExpr) *SVal {
 		// empty(K): the empty set over K
 		s, _ := c.sortOfTypeStr("set[" + x.Args[0].String() + "]")
 		return &SVal{T: ConstArr(s, False)}
+	case "bitand":
+		// bitand(a, b): Go's a & b on integers (the same uninterpreted function the executor uses for `&`)
+		a, b := c.eval(x.Args[0]), c.eval(x.Args[1])
+		name := "bit" + smtIdent("&")
+		DeclFunc(name, IntSort, IntSort, IntSort)
+		return &SVal{T: App(name, a.T, b.T), Ty: types.Typ[types.Int]}
 	case "allocated":
 		v := c.eval(x.Args[0])
 		return &SVal{T: Select(e.Heap(c.st, "$alloc", ArrSort(IntSort, BoolSort)), v.T), Ty: boolT}
